@@ -1898,6 +1898,31 @@ def _or_resample(ctx, inp):
     if o0.shape != (want_len, 3) or not np.allclose(o0, o1.T, rtol=0, atol=1e-12 * max(1.0, np.abs(d2).max())):
         ctx.fail("resample-axis", "resampling along axis 0 differs from resampling the transpose along axis 1", inp, list(o0.shape), [want_len, 3])
         return
+    # n-D data, every axis (positive and negative numbering): each fibre along `axis` is the 1-D result, every other
+    # axis keeps its place (time x channel x case arrays; equal trailing sizes so that a swap of axes cannot hide)
+    if ln <= 40:
+        for shape in ((ln, 2, 2), (2, ln, 3), (3, 3, ln), (2, ln, 2, 2)):
+            ax = shape.index(ln) if shape.count(ln) == 1 else [i for i, v in enumerate(shape) if v == ln][0]
+            if shape.count(ln) != 1:
+                continue
+            dn = nprng.normal(size=shape) + inp["offset"]
+            for axis in (ax, ax - len(shape)):
+                on = dsp.resample(dn, p, q, pts=pts, axis=axis)
+                want_shape = tuple(want_len if i == ax else v for i, v in enumerate(shape))
+                ok = on.shape == want_shape
+                if ok:
+                    moved_in = np.moveaxis(dn, ax, -1).reshape(-1, ln)
+                    moved_out = np.moveaxis(on, ax, -1).reshape(-1, want_len)
+                    for fin, fout in zip(moved_in, moved_out):
+                        if not np.allclose(dsp.resample(fin, p, q, pts=pts), fout, rtol=0, atol=1e-12 * max(1.0, np.abs(dn).max())):
+                            ok = False
+                            break
+                if not ok:
+                    ctx.fail("resample-axis-nd", "resampling a %d-D array along axis %d: a fibre is not the 1-D result in its own "
+                             "place (or the other axes moved)" % (len(shape), axis), dict(inp, shape=list(shape), axis=axis),
+                             list(on.shape), list(want_shape))
+                    return
+        ctx.count("oracle:resample-nd-axes")
     # band-limited accuracy vs pts: interior samples of a slow sinusoid against the true positions k*q/p
     n = 1200
     fr = inp["fr"]
